@@ -1,6 +1,8 @@
 (** C04: parsing the minimal-parenthesis rendering of an operator tree gives back the tree. *)
 From Coq Require Import String Ascii.
 From Cel.Model Require Import Surface.
+From Cel.Proofs Require Export ParserUnfold.
+From Cel.Proofs Require Import NumericProofs.
 From Coq Require Import Lia Arith.
 Open Scope nat_scope.
 
@@ -35,80 +37,6 @@ Proof.
 Qed.
 
 (** ** One-step unfoldings *)
-Lemma u_expr f ts : p_expr (S f) ts =
-  match p_or f ts with
-  | POk c (TQuestion :: ts1) =>
-      match p_or f ts1 with
-      | POk a (TColon :: ts2) =>
-          match p_expr f ts2 with
-          | POk b ts3 => POk (ECall op_conditional None [c; a; b]) ts3
-          | PFail => PFail | PFuel => PFuel
-          end
-      | POk _ _ => PFail | PFail => PFail | PFuel => PFuel
-      end
-  | r => r
-  end.
-Proof. reflexivity. Qed.
-Lemma u_or f ts : p_or (S f) ts = match p_and f ts with POk t ts1 => p_or_loop f [t] ts1 | r => r end.
-Proof. reflexivity. Qed.
-Lemma u_or_loop f acc ts : p_or_loop (S f) acc ts =
-  match ts with
-  | TOrOr :: ts1 => match p_and f ts1 with POk t ts2 => p_or_loop f (t :: acc) ts2 | r => r end
-  | _ => POk (logic_tree $"_||_" (rev' acc)) ts
-  end.
-Proof. reflexivity. Qed.
-Lemma u_and f ts : p_and (S f) ts = match p_rel f ts with POk t ts1 => p_and_loop f [t] ts1 | r => r end.
-Proof. reflexivity. Qed.
-Lemma u_and_loop f acc ts : p_and_loop (S f) acc ts =
-  match ts with
-  | TAndAnd :: ts1 => match p_rel f ts1 with POk t ts2 => p_and_loop f (t :: acc) ts2 | r => r end
-  | _ => POk (logic_tree $"_&&_" (rev' acc)) ts
-  end.
-Proof. reflexivity. Qed.
-Lemma u_rel f ts : p_rel (S f) ts = match p_add f ts with POk l ts1 => p_rel_loop f l ts1 | r => r end.
-Proof. reflexivity. Qed.
-Lemma u_rel_loop f lhs ts : p_rel_loop (S f) lhs ts =
-  match ts with
-  | op :: ts1 => match relop_name op with
-                 | Some name => match p_add f ts1 with
-                                | POk r ts2 => p_rel_loop f (ECall name None [lhs; r]) ts2
-                                | x => x
-                                end
-                 | None => POk lhs ts
-                 end
-  | [] => POk lhs ts
-  end.
-Proof. reflexivity. Qed.
-Lemma u_add f ts : p_add (S f) ts = match p_mul f ts with POk l ts1 => p_add_loop f l ts1 | r => r end.
-Proof. reflexivity. Qed.
-Lemma u_add_loop f lhs ts : p_add_loop (S f) lhs ts =
-  match ts with
-  | op :: ts1 => match addop_name op with
-                 | Some name => match p_mul f ts1 with
-                                | POk r ts2 => p_add_loop f (ECall name None [lhs; r]) ts2
-                                | x => x
-                                end
-                 | None => POk lhs ts
-                 end
-  | [] => POk lhs ts
-  end.
-Proof. reflexivity. Qed.
-Lemma u_mul f ts : p_mul (S f) ts = match p_unary f ts with POk l ts1 => p_mul_loop f l ts1 | r => r end.
-Proof. reflexivity. Qed.
-Lemma u_mul_loop f lhs ts : p_mul_loop (S f) lhs ts =
-  match ts with
-  | op :: ts1 => match mulop_name op with
-                 | Some name => match p_unary f ts1 with
-                                | POk r ts2 => p_mul_loop f (ECall name None [lhs; r]) ts2
-                                | x => x
-                                end
-                 | None => POk lhs ts
-                 end
-  | [] => POk lhs ts
-  end.
-Proof. reflexivity. Qed.
-Lemma u_member f ts : p_member (S f) ts = match p_primary f ts with POk p ts1 => p_postfix f p ts1 | r => r end.
-Proof. reflexivity. Qed.
 
 (** ** Primaries, postfix, member *)
 Lemma prim_id f x rest : stops 7 rest -> p_primary (S f) (TIdent x :: rest) = POk (EIdent x) rest.
@@ -271,6 +199,13 @@ Qed.
 Section StInd.
   Variable P : st -> Prop.
   Hypothesis Hid : forall x, P (SId x).
+  Hypothesis Hlit : forall l, P (SLit l).
+  Hypothesis Hsel : forall a f, P a -> P (SSel a f).
+  Hypothesis Hidx : forall a i, P a -> P i -> P (SIdx a i).
+  Hypothesis Hmcall : forall a f args, P a -> Forall P args -> P (SMCall a f args).
+  Hypothesis Hcall : forall f args, Forall P args -> P (SCall f args).
+  Hypothesis Hlist : forall es, Forall P es -> P (SLst es).
+  Hypothesis Hmap : forall kvs, Forall (fun kv => P (fst kv) /\ P (snd kv)) kvs -> P (SMap kvs).
   Hypothesis Hnot : forall n a, P a -> P (SNot n a).
   Hypothesis Hneg : forall n a, P a -> P (SNeg n a).
   Hypothesis Hmul : forall op a b, P a -> P b -> P (SMul op a b).
@@ -285,6 +220,20 @@ Section StInd.
                    match l with [] => Forall_nil _ | r :: l' => Forall_cons _ (st_ind' r) (go l') end) in
     match t with
     | SId x => Hid x
+    | SLit l => Hlit l
+    | SSel a f => Hsel a f (st_ind' a)
+    | SIdx a i => Hidx a i (st_ind' a) (st_ind' i)
+    | SMCall a f args => Hmcall a f args (st_ind' a) (many args)
+    | SCall f args => Hcall f args (many args)
+    | SLst es => Hlist es (many es)
+    | SMap kvs => Hmap kvs ((fix go (l : list (st * st)) : Forall (fun kv => P (fst kv) /\ P (snd kv)) l :=
+                               match l with
+                               | [] => Forall_nil _
+                               | kv :: l' =>
+                                   Forall_cons kv (match kv as p return P (fst p) /\ P (snd p) with
+                                                   | (k, v) => conj (st_ind' k) (st_ind' v)
+                                                   end) (go l')
+                               end) kvs)
     | SNot n a => Hnot n a (st_ind' a)
     | SNeg n a => Hneg n a (st_ind' a)
     | SMul op a b => Hmul op a b (st_ind' a) (st_ind' b)
@@ -329,8 +278,49 @@ Proof.
   cbn [ast]. apply f_equal. apply f_equal. induction rs as [|r rs IH]; [reflexivity|]. cbn [map]. rewrite <- IH. reflexivity.
 Qed.
 
+(** heads: a rendering starts with a token that starts a primary, or a prefix operator *)
+Definition prim_start (t : tk) : bool :=
+  match t with
+  | TIdent _ | TInt _ | TUint _ | TTrue | TFalse | TNull | TLParen | TLBracket | TLBrace => true
+  | _ => false
+  end.
+Definition hd_prim (ts : list tk) : Prop := match ts with t :: _ => prim_start t = true | [] => False end.
+Definition hd_expr (ts : list tk) : Prop :=
+  match ts with t :: _ => prim_start t = true \/ t = TBang \/ t = TMinus | [] => False end.
+Lemma hd_prim_app a b : hd_prim a -> hd_prim (a ++ b).
+Proof. destruct a; [contradiction|exact (fun H => H)]. Qed.
+Lemma hd_expr_app a b : hd_expr a -> hd_expr (a ++ b).
+Proof. destruct a; [contradiction|exact (fun H => H)]. Qed.
+Lemma hd_prim_expr a : hd_prim a -> hd_expr a.
+Proof. destruct a; [contradiction|]. cbn. auto. Qed.
+Lemma lit_tk_start l : prim_start (lit_tk l) = true.
+Proof. destruct l as [z|z|[]|]; reflexivity. Qed.
+
+Lemma tk7_prim t : hd_prim (tk_at 7 t).
+Proof.
+  induction t using st_ind'; unfold tk_at; cbn [prec Nat.leb raw]; try exact eq_refl;
+    try (fold (tk_at 7 t); apply hd_prim_app; exact IHt);
+    try (fold (tk_at 7 t1); apply hd_prim_app; exact IHt1).
+  apply lit_tk_start.
+Qed.
+Lemma tk_hd l t : hd_expr (raw t) -> hd_expr (tk_at l t).
+Proof. unfold tk_at. destruct (l <=? prec t); [auto|]. intros _. cbn. auto. Qed.
+Lemma raw_hd t : hd_expr (raw t).
+Proof.
+  induction t using st_ind'; cbn [raw]; try (cbn; auto; fail).
+  - cbn. left. apply lit_tk_start.
+  - fold (tk_at 7 t). apply hd_expr_app, hd_prim_expr, tk7_prim.
+  - fold (tk_at 7 t1). apply hd_expr_app, hd_prim_expr, tk7_prim.
+  - fold (tk_at 7 t). apply hd_expr_app, hd_prim_expr, tk7_prim.
+  - fold (tk_at 5 t1). apply hd_expr_app, tk_hd, IHt1.
+  - fold (tk_at 4 t1). apply hd_expr_app, tk_hd, IHt1.
+  - fold (tk_at 3 t1). apply hd_expr_app, tk_hd, IHt1.
+  - change (if 3 <=? prec t then raw t else TLParen :: raw t ++ [TRParen]) with (tk_at 3 t). apply hd_expr_app, tk_hd, IHt.
+  - change (if 2 <=? prec t then raw t else TLParen :: raw t ++ [TRParen]) with (tk_at 2 t). apply hd_expr_app, tk_hd, IHt.
+  - fold (tk_at 1 t1). apply hd_expr_app, tk_hd, IHt1.
+Qed.
 Lemma tk7_head t : plain_head (tk_at 7 t).
-Proof. unfold tk_at. destruct t; cbn; exact I. Qed.
+Proof. pose proof (tk7_prim t) as H. destruct (tk_at 7 t) as [|t0 r]; [contradiction|]. destruct t0; try discriminate; exact I. Qed.
 
 Lemma tk_raw l t : l <= prec t -> tk_at l t = raw t.
 Proof. intros H. unfold tk_at. destruct (Nat.leb_spec l (prec t)); [reflexivity|lia]. Qed.
@@ -437,12 +427,11 @@ Lemma tk7_not_bang t rest : match tk_at 7 t ++ rest with TBang :: _ => False | _
 Proof. pose proof (tk7_head t) as H. destruct (tk_at 7 t) as [|t0 r]; [contradiction|]. cbn [app]. destruct t0; auto. Qed.
 Lemma tk7_not_minus t rest : match tk_at 7 t ++ rest with TMinus :: _ => False | _ => True end.
 Proof. pose proof (tk7_head t) as H. destruct (tk_at 7 t) as [|t0 r]; [contradiction|]. cbn [app]. destruct t0; auto. Qed.
-Lemma tk7_shape t : (exists x, tk_at 7 t = [TIdent x]) \/ (exists r, tk_at 7 t = TLParen :: r).
-Proof. unfold tk_at. destruct t; cbn; eauto. Qed.
-Lemma tk7_not_number n t rest : is_number_tok (repeat TMinus n ++ tk_at 7 t ++ rest) = false.
+Lemma tk7_not_number n t rest : (n = 0 -> is_number_tok (tk_at 7 t) = false) ->
+  is_number_tok (repeat TMinus n ++ tk_at 7 t ++ rest) = false.
 Proof.
-  destruct n; cbn [repeat app]; [|reflexivity].
-  destruct (tk7_shape t) as [[x ->]|[r ->]]; reflexivity.
+  intros H. destruct n; cbn [repeat app]; [|reflexivity]. specialize (H eq_refl).
+  pose proof (tk7_prim t) as Hp. destruct (tk_at 7 t) as [|t0 r]; [contradiction|]. exact H.
 Qed.
 
 Lemma tk_at_skip l t : prec t <> l -> tk_at l t = tk_at (S l) t.
@@ -480,15 +469,329 @@ Proof. destruct op; cbn; intros H; try congruence; auto. Qed.
 Lemma relop_level op : relop_name op <> None -> starter op = false /\ op_level op = Some 3.
 Proof. destruct op; cbn; intros H; try congruence; auto. Qed.
 
-Definition Good (t : st) : Prop := Par t /\ Kmul t /\ Kadd t /\ Krel t.
+(** ** Postfix forms, calls and collection literals *)
+
+(** what may follow a primary so that the message-literal lookahead of an identifier fails *)
+Definition msafe (R : list tk) : Prop := forall fuel x acc, msg_prefix fuel (TIdent x :: R) acc = None.
+Lemma msafe_head R : match R with TLBrace :: _ | TDot :: _ => False | _ => True end -> msafe R.
+Proof.
+  intros H fuel x acc. destruct fuel; [reflexivity|]. cbn [msg_prefix].
+  destruct R as [|t r]; [reflexivity|]. destruct t; try reflexivity; contradiction.
+Qed.
+Lemma msafe_sel g R : msafe R -> msafe (TDot :: TIdent g :: R).
+Proof. intros H fuel x acc. destruct fuel; [reflexivity|]. cbn [msg_prefix]. apply H. Qed.
+Lemma msafe_call g R : msafe (TDot :: TIdent g :: TLParen :: R).
+Proof. intros [|[|fuel]] x acc; reflexivity. Qed.
+
+Definition postok (R : list tk) : Prop := msafe R /\ match R with TLParen :: _ => False | _ => True end.
+Lemma stops_postok l R : stops l R -> postok R.
+Proof.
+  intros H. destruct R as [|t r]; [split; [now apply msafe_head|exact I]|]. destruct H as [H _].
+  split; [apply msafe_head|]; destruct t; try discriminate; exact I.
+Qed.
+
+Lemma prim_id_k f x R : postok R -> p_primary (S f) (TIdent x :: R) = POk (EIdent x) R.
+Proof.
+  intros [Hm Hp]. rewrite u_primary. unfold ident_forms. rewrite Hm.
+  destruct R as [|t r]; [reflexivity|]. destruct t; try reflexivity; contradiction.
+Qed.
+
+(** [Kpost t]: after the tokens of [t] at member level the parser is in the postfix loop with
+    [ast t] in hand *)
+Definition Kpost (t : st) : Prop := forall R X, postok R ->
+  ev (fun f => p_postfix f (ast t) R) X -> ev (fun f => p_member f (tk_at 7 t ++ R)) X.
+
+Lemma member_paren_k ts e R X :
+  ev (fun f => p_expr f (ts ++ TRParen :: R)) (POk e (TRParen :: R)) ->
+  ev (fun f => p_postfix f e R) X ->
+  ev (fun f => p_member f (TLParen :: ts ++ TRParen :: R)) X.
+Proof.
+  intros [n1 H1] [n2 H2]. exists (S (S (max n1 n2))). intros [|[|f]] Hf; try lia.
+  rewrite u_member, u_prim_paren, H1 by lia. apply H2. lia.
+Qed.
+
+Lemma Kpost_paren t : prec t < 7 -> Par t -> Kpost t.
+Proof.
+  intros Hp HP R X _ HX. rewrite (tk_paren 7 t Hp). cbn [app]. rewrite <- app_assoc. cbn [app].
+  apply (member_paren_k (raw t) (ast t) R X); [|exact HX].
+  pose proof (HP 0 ltac:(lia) (TRParen :: R)) as H0. rewrite (tk_raw 0 t) in H0 by lia. apply H0. cbn. auto.
+Qed.
+
+Lemma Par_of_Kpost t : prec t = 7 -> Kpost t -> Par t.
+Proof.
+  intros Hp HK. apply par_all.
+  - intros rest Hs. rewrite Hp in *. cbn [p_at]. rewrite <- (tk_raw 7 t) by lia.
+    apply HK; [eapply stops_postok; exact Hs|]. exists 1. intros [|f] Hf; [lia|]. now apply postfix_stop.
+  - intros _. rewrite <- (tk_raw 7 t) by lia. apply tk7_head.
+Qed.
+
+(** comma-separated renderings and the ASTs of a list of trees *)
+Fixpoint commas (l : list st) : list tk :=
+  match l with
+  | [] => []
+  | x :: l' => raw x ++ match l' with [] => [] | _ => TComma :: commas l' end
+  end.
+Fixpoint entries_tk (l : list (st * st)) : list tk :=
+  match l with
+  | [] => []
+  | (k, v) :: l' => raw k ++ [TColon] ++ raw v ++ match l' with [] => [] | _ => TComma :: entries_tk l' end
+  end.
+Definition entries_ast (l : list (st * st)) : list (expr * expr) := map (fun kv => (ast (fst kv), ast (snd kv))) l.
+
+Lemma raw_mcall a g args : raw (SMCall a g args) = tk_at 7 a ++ [TDot; TIdent g; TLParen] ++ commas args ++ [TRParen].
+Proof. reflexivity. Qed.
+Lemma raw_call g args : raw (SCall g args) = [TIdent g; TLParen] ++ commas args ++ [TRParen].
+Proof. reflexivity. Qed.
+Lemma raw_list es : raw (SLst es) = [TLBracket] ++ commas es ++ [TRBracket].
+Proof. reflexivity. Qed.
+Lemma raw_map kvs : raw (SMap kvs) = [TLBrace] ++ entries_tk kvs ++ [TRBrace].
+Proof. reflexivity. Qed.
+Lemma ast_many l : (fix go (l : list st) : list expr := match l with [] => [] | r :: l' => ast r :: go l' end) l = map ast l.
+Proof. induction l as [|x l IH]; [reflexivity|]. cbn [map]. now rewrite <- IH. Qed.
+Lemma ast_mcall a g args : ast (SMCall a g args) = ECall g (Some (ast a)) (map ast args).
+Proof. cbn [ast]. now rewrite ast_many. Qed.
+Lemma ast_call g args : ast (SCall g args) = ECall g None (map ast args).
+Proof. cbn [ast]. now rewrite ast_many. Qed.
+Lemma ast_list es : ast (SLst es) = EList (map ast es).
+Proof. cbn [ast]. now rewrite ast_many. Qed.
+Lemma ast_map kvs : ast (SMap kvs) = EMap (entries_ast kvs).
+Proof.
+  cbn [ast]. f_equal. unfold entries_ast. induction kvs as [|[k v] l IH]; [reflexivity|]. cbn [map fst snd]. now rewrite <- IH.
+Qed.
+
+Lemma stops0_closer t R : match t with TRParen | TRBracket | TRBrace | TComma | TColon => True | _ => False end ->
+  stops 0 (t :: R).
+Proof. destruct t; try contradiction; cbn; auto. Qed.
+
+(** argument lists: after '(' *)
+Lemma args_rest_ok l : Forall Par l -> l <> [] -> forall acc R,
+  ev (fun f => p_args_rest f acc (commas l ++ TRParen :: R)) (POk (rev' (rev (map ast l) ++ acc)) R).
+Proof.
+  induction 1 as [|a l Ha Hl IH]; intros Hne acc R; [congruence|].
+  cbn [commas]. destruct l as [|b l'].
+  - rewrite app_nil_r. destruct (Ha 0 ltac:(lia) (TRParen :: R) (stops0_closer TRParen R I)) as [n H].
+    rewrite (tk_raw 0 a) in H by lia. cbn [p_at] in H.
+    exists (S n). intros [|f] Hf; [lia|]. rewrite u_args_rest, H by lia. reflexivity.
+  - rewrite <- app_assoc. cbn [app].
+    destruct (Ha 0 ltac:(lia) (TComma :: commas (b :: l') ++ TRParen :: R) (stops0_closer TComma _ I)) as [n1 H1].
+    rewrite (tk_raw 0 a) in H1 by lia. cbn [p_at] in H1.
+    destruct (IH ltac:(discriminate) (ast a :: acc) R) as [n2 H2].
+    exists (S (max n1 n2)). intros [|f] Hf; [lia|]. rewrite u_args_rest, H1 by lia. rewrite H2 by lia.
+    cbn [map rev]. now rewrite <- !app_assoc.
+Qed.
+
+Lemma hd_not_closer ts R : hd_expr ts ->
+  match ts ++ R with TRParen :: _ | TRBracket :: _ | TRBrace :: _ | TQuestion :: _ | TComma :: _ => False | _ => True end.
+Proof. destruct ts as [|t r]; [contradiction|]. cbn. intros [H|[->| ->]]; [|exact I|exact I]. destruct t; try discriminate; exact I. Qed.
+
+Lemma commas_hd a l : hd_expr (commas (a :: l)).
+Proof. cbn [commas]. apply hd_expr_app, raw_hd. Qed.
+
+Lemma args_ok l : Forall Par l -> forall R,
+  ev (fun f => p_args f (commas l ++ TRParen :: R)) (POk (map ast l) R).
+Proof.
+  intros Hl R. destruct l as [|a l].
+  - exists 1. intros [|f] Hf; [lia|]. reflexivity.
+  - destruct (args_rest_ok (a :: l) Hl ltac:(discriminate) [] R) as [n H].
+    exists (S n). intros [|f] Hf; [lia|]. rewrite u_args.
+    pose proof (commas_hd a l) as Hh.
+    assert (E : match commas (a :: l) ++ TRParen :: R with
+                | TRParen :: ts1 => POk [] ts1
+                | _ => p_args_rest f [] (commas (a :: l) ++ TRParen :: R)
+                end = p_args_rest f [] (commas (a :: l) ++ TRParen :: R)).
+    { destruct (commas (a :: l)) as [|t0 r0]; [contradiction|]. cbn [app].
+      destruct Hh as [Hh|[->| ->]]; [|reflexivity|reflexivity]. destruct t0; try discriminate; reflexivity. }
+    rewrite E, H by lia. now rewrite app_nil_r, rev'_rev, rev_involutive.
+Qed.
+
+(** list elements: after '[' *)
+Lemma elems_ok l : Forall Par l -> forall acc R,
+  ev (fun f => p_elems f acc (commas l ++ TRBracket :: R)) (POk (rev' (rev (map ast l) ++ acc)) R).
+Proof.
+  induction 1 as [|a l Ha Hl IH]; intros acc R.
+  - exists 1. intros [|f] Hf; [lia|]. reflexivity.
+  - assert (Skip : forall f ts, (match ts with TRBracket :: _ | TQuestion :: _ => False | _ => True end) ->
+        p_elems (S f) acc ts = match p_expr f ts with
+          | POk a (TComma :: ts1) => p_elems f (a :: acc) ts1
+          | POk a (TRBracket :: ts1) => POk (rev' (a :: acc)) ts1
+          | POk _ _ => PFail | PFail => PFail | PFuel => PFuel end).
+    { intros f ts Hh. rewrite u_elems. destruct ts as [|t r]; [reflexivity|]. destruct t; try reflexivity; contradiction. }
+    assert (Hh : match commas (a :: l) ++ TRBracket :: R with TRBracket :: _ | TQuestion :: _ => False | _ => True end).
+    { pose proof (hd_not_closer (commas (a :: l)) (TRBracket :: R) (commas_hd a l)) as H0.
+      destruct (commas (a :: l) ++ TRBracket :: R) as [|t r]; [exact I|]. destruct t; auto. }
+    cbn [commas] in *. destruct l as [|b l'].
+    + rewrite app_nil_r in *. destruct (Ha 0 ltac:(lia) (TRBracket :: R) (stops0_closer TRBracket R I)) as [n H].
+      rewrite (tk_raw 0 a) in H by lia. cbn [p_at] in H.
+      exists (S n). intros [|f] Hf; [lia|]. rewrite (Skip f _ Hh), H by lia. reflexivity.
+    + rewrite <- app_assoc in *. cbn [app] in *.
+      destruct (Ha 0 ltac:(lia) (TComma :: commas (b :: l') ++ TRBracket :: R) (stops0_closer TComma _ I)) as [n1 H1].
+      rewrite (tk_raw 0 a) in H1 by lia. cbn [p_at] in H1.
+      destruct (IH (ast a :: acc) R) as [n2 H2].
+      exists (S (max n1 n2)). intros [|f] Hf; [lia|]. rewrite (Skip f _ Hh), H1 by lia. rewrite H2 by lia.
+      cbn [map rev]. now rewrite <- !app_assoc.
+Qed.
+
+(** map entries: after '{' *)
+Lemma entries_ok l : Forall (fun kv => Par (fst kv) /\ Par (snd kv)) l -> forall acc R,
+  ev (fun f => p_entries f acc (entries_tk l ++ TRBrace :: R)) (POk (rev' (rev (entries_ast l) ++ acc)) R).
+Proof.
+  induction 1 as [|[k v] l [Hk Hv] Hl IH]; intros acc R.
+  - exists 1. intros [|f] Hf; [lia|]. reflexivity.
+  - cbn [fst snd] in Hk, Hv.
+    assert (Skip : forall f ts, (match ts with TRBrace :: _ | TQuestion :: _ => False | _ => True end) ->
+        p_entries (S f) acc ts = match p_expr f ts with
+          | POk k (TColon :: ts1) =>
+              match p_expr f ts1 with
+              | POk v (TComma :: ts2) => p_entries f ((k, v) :: acc) ts2
+              | POk v (TRBrace :: ts2) => POk (rev' ((k, v) :: acc)) ts2
+              | POk _ _ => PFail | PFail => PFail | PFuel => PFuel end
+          | POk _ _ => PFail | PFail => PFail | PFuel => PFuel end).
+    { intros f ts Hh. rewrite u_entries. destruct ts as [|t r]; [reflexivity|]. destruct t; try reflexivity; contradiction. }
+    assert (Hh : match entries_tk ((k, v) :: l) ++ TRBrace :: R with TRBrace :: _ | TQuestion :: _ => False | _ => True end).
+    { cbn [entries_tk]. rewrite <- app_assoc.
+      pose proof (hd_not_closer (raw k) (([TColon] ++ raw v ++ match l with [] => [] | _ :: _ => TComma :: entries_tk l end) ++ TRBrace :: R) (raw_hd k)) as H0.
+      destruct (raw k ++ _) as [|t r]; [exact I|]. destruct t; auto. }
+    cbn [entries_tk] in *. rewrite <- !app_assoc in *. cbn [app] in *.
+    destruct l as [|kv l'].
+    + cbn [app] in *.
+      destruct (Hk 0 ltac:(lia) (TColon :: raw v ++ TRBrace :: R) (stops0_closer TColon _ I)) as [n1 H1].
+      rewrite (tk_raw 0 k) in H1 by lia. cbn [p_at] in H1.
+      destruct (Hv 0 ltac:(lia) (TRBrace :: R) (stops0_closer TRBrace R I)) as [n2 H2].
+      rewrite (tk_raw 0 v) in H2 by lia. cbn [p_at] in H2.
+      exists (S (max n1 n2)). intros [|f] Hf; [lia|]. rewrite (Skip f _ Hh), H1 by lia. rewrite H2 by lia. reflexivity.
+    + cbn [app] in *.
+      destruct (Hk 0 ltac:(lia) (TColon :: raw v ++ TComma :: entries_tk (kv :: l') ++ TRBrace :: R) (stops0_closer TColon _ I)) as [n1 H1].
+      rewrite (tk_raw 0 k) in H1 by lia. cbn [p_at] in H1.
+      destruct (Hv 0 ltac:(lia) (TComma :: entries_tk (kv :: l') ++ TRBrace :: R) (stops0_closer TComma _ I)) as [n2 H2].
+      rewrite (tk_raw 0 v) in H2 by lia. cbn [p_at] in H2.
+      destruct (IH ((ast k, ast v) :: acc) R) as [n3 H3].
+      exists (S (max n1 (max n2 n3))). intros [|f] Hf; [lia|]. rewrite (Skip f _ Hh), H1 by lia. rewrite H2 by lia. rewrite H3 by lia.
+      unfold entries_ast. cbn [map rev fst snd]. now rewrite <- !app_assoc.
+Qed.
+
+Lemma mk_call_plain g tgt args rest : no_macro g (match tgt with Some _ => true | None => false end) (length args) = true ->
+  mk_call g tgt args rest = POk (ECall g tgt args) rest.
+Proof.
+  unfold no_macro, mk_call, expand_call. destruct (find_expander g _ (length args)); [discriminate|reflexivity].
+Qed.
+
+Definition Good (t : st) : Prop := Par t /\ Kmul t /\ Kadd t /\ Krel t /\ Kpost t.
+
+Lemma good_prim t : prec t = 7 -> Kpost t -> Good t.
+Proof.
+  intros Hp HK. pose proof (Par_of_Kpost t Hp HK) as HP.
+  repeat split; [exact HP|apply Kmul_from_par|apply Kadd_from_par|apply Krel_from_par|exact HK]; auto; lia.
+Qed.
+Lemma good_low t : prec t < 7 -> Par t -> (prec t = 5 -> Kmul t) -> (prec t = 4 -> Kadd t) -> (prec t = 3 -> Krel t) -> Good t.
+Proof.
+  intros Hp HP H5 H4 H3. repeat split; [exact HP| | | |apply Kpost_paren; assumption].
+  - destruct (Nat.eq_dec (prec t) 5); [auto|now apply Kmul_from_par].
+  - destruct (Nat.eq_dec (prec t) 4); [auto|now apply Kadd_from_par].
+  - destruct (Nat.eq_dec (prec t) 3); [auto|now apply Krel_from_par].
+Qed.
 
 Theorem roundtrip_all t : wf_st t -> Good t.
 Proof.
   induction t using st_ind'; intros W; cbn [wf_st] in W.
   - (* identifier *)
-    assert (HP : Par (SId x)).
-    { apply par_all; [|intros _; exact I]. intros rest Hs. cbn [prec] in Hs. cbn [prec p_at raw app]. now apply member_id. }
-    repeat split; [exact HP|apply Kmul_from_par|apply Kadd_from_par|apply Krel_from_par]; auto; cbn; lia.
+    apply good_prim; [reflexivity|]. intros R X HR [n H].
+    exists (S (S n)). intros [|[|f]] Hf; try lia. rewrite (tk_raw 7 (SId x)) by (cbn; lia). cbn [raw app].
+    rewrite u_member, (prim_id_k f x R HR). apply H. lia.
+  - (* literal *)
+    apply good_prim; [reflexivity|]. intros R X HR [n H].
+    exists (S (S n)). intros [|[|f]] Hf; try lia. rewrite (tk_raw 7 (SLit l)) by (cbn; lia). cbn [raw app].
+    rewrite u_member.
+    assert (E : p_primary (S f) (lit_tk l :: R) = POk (ELit (lit_val l)) R).
+    { rewrite u_primary. destruct l as [z|z|[]|]; cbn [lit_tk lit_val wf_lit] in *; try reflexivity.
+      - apply andb_prop in W as [W0 W1]. cbn [literal_of].
+        pose proof (int_literal_dec z W1) as E. replace (z <? 0)%Z with false in E by lia.
+        replace (Z.abs z) with z in E by lia. now rewrite E.
+      - cbn [literal_of]. now rewrite (uint_literal_dec z (ch "u") W). }
+    rewrite E. apply H. lia.
+  - (* field selection *)
+    destruct (IHt W) as (_ & _ & _ & _ & Ka).
+    apply good_prim; [reflexivity|]. intros R X [Rm Rp] [n H].
+    rewrite (tk_raw 7 (SSel t f)) by (cbn; lia). cbn [raw]. fold (tk_at 7 t). rewrite <- app_assoc. cbn [app].
+    apply Ka; [split; [now apply msafe_sel|exact I]|].
+    exists (S n). intros [|f0] Hf; [lia|]. rewrite u_postfix.
+    replace (match R with TLParen :: _ => _ | _ => p_postfix f0 (ESelect (ast t) f false) R end)
+      with (p_postfix f0 (ESelect (ast t) f false) R) by (destruct R as [|t0 r]; [reflexivity|]; destruct t0; try reflexivity; contradiction).
+    apply H. lia.
+  - (* index *)
+    destruct W as [Wa Wi]. destruct (IHt1 Wa) as (_ & _ & _ & _ & Ka). destruct (IHt2 Wi) as (Pi & _).
+    apply good_prim; [reflexivity|]. intros R X HR [n H].
+    rewrite (tk_raw 7 (SIdx t1 t2)) by (cbn; lia). cbn [raw]. fold (tk_at 7 t1). rewrite <- !app_assoc. cbn [app].
+    apply Ka; [split; [now apply msafe_head|exact I]|].
+    destruct (Pi 0 ltac:(lia) (TRBracket :: R) (stops0_closer TRBracket R I)) as [n1 H1].
+    rewrite (tk_raw 0 t2) in H1 by lia. cbn [p_at] in H1.
+    exists (S (max n n1)). intros [|f0] Hf; [lia|]. rewrite u_postfix.
+    pose proof (hd_not_closer (raw t2) (TRBracket :: R) (raw_hd t2)) as Hh.
+    assert (E : match raw t2 ++ TRBracket :: R with
+                | TQuestion :: _ => PFail
+                | _ => match p_expr f0 (raw t2 ++ TRBracket :: R) with
+                       | POk i (TRBracket :: ts2) => p_postfix f0 (ECall $"_[_]" None [ast t1; i]) ts2
+                       | POk _ _ => PFail | PFail => PFail | PFuel => PFuel end
+                end = p_postfix f0 (ECall $"_[_]" None [ast t1; ast t2]) R).
+    { rewrite H1 by lia. destruct (raw t2 ++ TRBracket :: R) as [|t0 r]; [reflexivity|]. destruct t0; try reflexivity; contradiction. }
+    rewrite E. apply H. lia.
+  - (* member call *)
+    destruct W as (Wm & Wa & Wargs). destruct (IHt Wa) as (_ & _ & _ & _ & Ka).
+    assert (Pargs : Forall Par args).
+    { clear Wm. induction H as [|r rs Hr _ IH]; [constructor|]. destruct Wargs as [Wr Wrs].
+      constructor; [exact (proj1 (Hr Wr))|exact (IH Wrs)]. }
+    apply good_prim; [reflexivity|]. intros R X HR [n HX].
+    rewrite (tk_raw 7 (SMCall t f args)) by (cbn; lia). rewrite raw_mcall, <- !app_assoc. cbn [app].
+    apply Ka; [split; [apply msafe_call|exact I]|].
+    destruct (args_ok args Pargs R) as [n1 H1].
+    exists (S (max n n1)). intros [|f0] Hf; [lia|]. rewrite u_postfix, H1 by lia.
+    rewrite mk_call_plain by (now rewrite map_length). rewrite ast_mcall in HX. apply HX. lia.
+  - (* global call *)
+    destruct W as (Wm & Wargs).
+    assert (Pargs : Forall Par args).
+    { clear Wm. induction H as [|r rs Hr _ IH]; [constructor|]. destruct Wargs as [Wr Wrs].
+      constructor; [exact (proj1 (Hr Wr))|exact (IH Wrs)]. }
+    apply good_prim; [reflexivity|]. intros R X HR [n HX].
+    rewrite (tk_raw 7 (SCall f args)) by (cbn; lia). rewrite raw_call, <- !app_assoc. cbn [app].
+    destruct (args_ok args Pargs R) as [n1 H1].
+    exists (S (S (max n n1))). intros [|[|f0]] Hf; try lia. rewrite u_member, u_primary. unfold ident_forms.
+    cbn [msg_prefix length]. rewrite H1 by lia.
+    rewrite mk_call_plain by (now rewrite map_length). rewrite ast_call in HX. apply HX. lia.
+  - (* list literal *)
+    assert (Pes : Forall Par es).
+    { induction H as [|r rs Hr _ IH]; [constructor|]. destruct W as [Wr Wrs].
+      constructor; [exact (proj1 (Hr Wr))|exact (IH Wrs)]. }
+    apply good_prim; [reflexivity|]. intros R X HR [n HX].
+    rewrite (tk_raw 7 (SLst es)) by (cbn; lia). rewrite raw_list, <- !app_assoc. cbn [app].
+    destruct (elems_ok es Pes [] R) as [n1 H1].
+    exists (S (S (max n n1))). intros [|[|f0]] Hf; try lia. rewrite u_member, u_primary.
+    assert (E : match commas es ++ TRBracket :: R with
+                | TComma :: TRBracket :: ts1 => POk (EList []) ts1
+                | _ => match p_elems f0 [] (commas es ++ TRBracket :: R) with
+                       | POk es0 ts2 => POk (EList es0) ts2 | PFail => PFail | PFuel => PFuel end
+                end = POk (EList (map ast es)) R).
+    { rewrite H1 by lia. rewrite app_nil_r, rev'_rev, rev_involutive.
+      destruct es as [|e0 es']; [reflexivity|].
+      pose proof (hd_not_closer (commas (e0 :: es')) (TRBracket :: R) (commas_hd e0 es')) as Hh.
+      destruct (commas (e0 :: es') ++ TRBracket :: R) as [|t0 r]; [reflexivity|]. destruct t0; try reflexivity; contradiction. }
+    rewrite E. rewrite ast_list in HX. apply HX. lia.
+  - (* map literal *)
+    assert (Pkvs : Forall (fun kv => Par (fst kv) /\ Par (snd kv)) kvs).
+    { induction H as [|[k v] l [Hk Hv] _ IH]; [constructor|]. destruct W as (Wk & Wv & Wl).
+      constructor; [split; [exact (proj1 (Hk Wk))|exact (proj1 (Hv Wv))]|exact (IH Wl)]. }
+    apply good_prim; [reflexivity|]. intros R X HR [n HX].
+    rewrite (tk_raw 7 (SMap kvs)) by (cbn; lia). rewrite raw_map, <- !app_assoc. cbn [app].
+    destruct (entries_ok kvs Pkvs [] R) as [n1 H1].
+    exists (S (S (max n n1))). intros [|[|f0]] Hf; try lia. rewrite u_member, u_primary.
+    assert (E : match entries_tk kvs ++ TRBrace :: R with
+                | TComma :: TRBrace :: ts1 => POk (EMap []) ts1
+                | _ => match p_entries f0 [] (entries_tk kvs ++ TRBrace :: R) with
+                       | POk es0 ts2 => POk (EMap es0) ts2 | PFail => PFail | PFuel => PFuel end
+                end = POk (EMap (entries_ast kvs)) R).
+    { rewrite H1 by lia. rewrite app_nil_r, rev'_rev, rev_involutive.
+      destruct kvs as [|[k v] l]; [reflexivity|]. cbn [entries_tk]. rewrite <- app_assoc.
+      pose proof (hd_not_closer (raw k) (([TColon] ++ raw v ++ match l with [] => [] | _ :: _ => TComma :: entries_tk l end) ++ TRBrace :: R) (raw_hd k)) as Hh.
+      destruct (raw k ++ _) as [|t0 r]; [reflexivity|]. destruct t0; try reflexivity; contradiction. }
+    rewrite E. rewrite ast_map in HX. apply HX. lia.
   - (* '!' run *)
     destruct (IHt W) as (Pa & _).
     assert (HP : Par (SNot n t)).
@@ -498,17 +801,17 @@ Proof.
       exists (S n1). intros [|f] Hf; [lia|]. cbn [repeat app]. rewrite u_unary_bang.
       change (TBang :: repeat TBang n ++ tk_at 7 t ++ rest) with (repeat TBang (S n) ++ tk_at 7 t ++ rest).
       rewrite (count_bangs (S n) _ (tk7_not_bang t rest)). rewrite H1 by lia. reflexivity. }
-    repeat split; [exact HP|apply Kmul_from_par|apply Kadd_from_par|apply Krel_from_par]; auto; cbn; lia.
+    apply good_low; [cbn; lia|exact HP|cbn; intros; discriminate|cbn; intros; discriminate|cbn; intros; discriminate].
   - (* '-' run *)
-    destruct (IHt W) as (Pa & _).
+    destruct W as [W Wn]. fold (tk_at 7 t) in Wn. destruct (IHt W) as (Pa & _).
     assert (HP : Par (SNeg n t)).
     { apply par_all; [|cbn; lia]. intros rest Hs. cbn [prec] in Hs. cbn [prec p_at raw]. fold (tk_at 7 t). rewrite <- app_assoc.
       assert (S7 : stops 7 rest) by (eapply stops_le; [|exact Hs]; lia).
       destruct (Pa 7 (le_n 7) rest S7) as [n1 H1]. cbn [p_at] in H1.
-      exists (S n1). intros [|f] Hf; [lia|]. cbn [repeat app]. rewrite u_unary_minus, tk7_not_number.
+      exists (S n1). intros [|f] Hf; [lia|]. cbn [repeat app]. rewrite u_unary_minus, (tk7_not_number n t rest Wn).
       change (TMinus :: repeat TMinus n ++ tk_at 7 t ++ rest) with (repeat TMinus (S n) ++ tk_at 7 t ++ rest).
       rewrite (count_minus (S n) _ (tk7_not_minus t rest)). rewrite H1 by lia. reflexivity. }
-    repeat split; [exact HP|apply Kmul_from_par|apply Kadd_from_par|apply Krel_from_par]; auto; cbn; lia.
+    apply good_low; [cbn; lia|exact HP|cbn; intros; discriminate|cbn; intros; discriminate|cbn; intros; discriminate].
   - (* multiplicative *)
     destruct W as (Wop & Wa & Wb). destruct (IHt1 Wa) as (_ & Ka & _). destruct (IHt2 Wb) as (Pb & _).
     destruct (mulop_level op Wop) as [Os Ol]. destruct (mulop_name op) as [name|] eqn:En; [|congruence].
@@ -522,7 +825,7 @@ Proof.
     assert (HP : Par (SMul op t1 t2)).
     { apply par_all; [|cbn; lia]. intros rest Hs. cbn [prec] in Hs. cbn [prec p_at]. rewrite <- (tk_raw 5 (SMul op t1 t2)) by (cbn; lia).
       apply HK; [eapply stops_le; [|exact Hs]; lia|]. exists 1. intros [|f] Hf; [lia|]. now apply mul_loop_stop. }
-    repeat split; [exact HP|exact HK|apply Kadd_from_par|apply Krel_from_par]; auto; cbn; lia.
+    apply good_low; [cbn; lia|exact HP|intros _; exact HK|cbn; intros; discriminate|cbn; intros; discriminate].
   - (* additive *)
     destruct W as (Wop & Wa & Wb). destruct (IHt1 Wa) as (_ & _ & Ka & _). destruct (IHt2 Wb) as (Pb & _).
     destruct (addop_level op Wop) as [Os Ol]. destruct (addop_name op) as [name|] eqn:En; [|congruence].
@@ -536,7 +839,7 @@ Proof.
     assert (HP : Par (SAdd op t1 t2)).
     { apply par_all; [|cbn; lia]. intros rest Hs. cbn [prec] in Hs. cbn [prec p_at]. rewrite <- (tk_raw 4 (SAdd op t1 t2)) by (cbn; lia).
       apply HK; [eapply stops_le; [|exact Hs]; lia|]. exists 1. intros [|f] Hf; [lia|]. now apply add_loop_stop. }
-    repeat split; [exact HP|apply Kmul_from_par|exact HK|apply Krel_from_par]; auto; cbn; lia.
+    apply good_low; [cbn; lia|exact HP|cbn; intros; discriminate|intros _; exact HK|cbn; intros; discriminate].
   - (* relational *)
     destruct W as (Wop & Wa & Wb). destruct (IHt1 Wa) as (_ & _ & _ & Ka). destruct (IHt2 Wb) as (Pb & _).
     destruct (relop_level op Wop) as [Os Ol]. destruct (relop_name op) as [name|] eqn:En; [|congruence].
@@ -550,7 +853,7 @@ Proof.
     assert (HP : Par (SRel op t1 t2)).
     { apply par_all; [|cbn; lia]. intros rest Hs. cbn [prec] in Hs. cbn [prec p_at]. rewrite <- (tk_raw 3 (SRel op t1 t2)) by (cbn; lia).
       apply HK; [eapply stops_le; [|exact Hs]; lia|]. exists 1. intros [|f] Hf; [lia|]. now apply rel_loop_stop. }
-    repeat split; [exact HP|apply Kmul_from_par|apply Kadd_from_par|exact HK]; auto; cbn; lia.
+    apply good_low; [cbn; lia|exact HP|cbn; intros; discriminate|cbn; intros; discriminate|intros _; exact HK].
   - (* && chain *)
     destruct W as (Wa & Wne & Wrs). destruct (IHt Wa) as (Pa & _).
     assert (Prs : Forall Par rs).
@@ -564,7 +867,7 @@ Proof.
       destruct (and_chain rs Prs [ast t] rest Hs) as [n2 H2].
       exists (S (max n1 n2)). intros [|f] Hf; [lia|]. rewrite u_and, H1 by lia. rewrite H2 by lia.
       rewrite ast_and, rev'_rev, rev_app_distr, rev_involutive. reflexivity. }
-    repeat split; [exact HP|apply Kmul_from_par|apply Kadd_from_par|apply Krel_from_par]; auto; cbn; lia.
+    apply good_low; [cbn; lia|exact HP|cbn; intros; discriminate|cbn; intros; discriminate|cbn; intros; discriminate].
   - (* || chain *)
     destruct W as (Wa & Wne & Wrs). destruct (IHt Wa) as (Pa & _).
     assert (Prs : Forall Par rs).
@@ -578,7 +881,7 @@ Proof.
       destruct (or_chain rs Prs [ast t] rest Hs) as [n2 H2].
       exists (S (max n1 n2)). intros [|f] Hf; [lia|]. rewrite u_or, H1 by lia. rewrite H2 by lia.
       rewrite ast_or, rev'_rev, rev_app_distr, rev_involutive. reflexivity. }
-    repeat split; [exact HP|apply Kmul_from_par|apply Kadd_from_par|apply Krel_from_par]; auto; cbn; lia.
+    apply good_low; [cbn; lia|exact HP|cbn; intros; discriminate|cbn; intros; discriminate|cbn; intros; discriminate].
   - (* conditional *)
     destruct W as (Wc & Wa & Wb). destruct (IHt1 Wc) as (Pc & _). destruct (IHt2 Wa) as (Pa & _). destruct (IHt3 Wb) as (Pb & _).
     assert (HP : Par (SCond t1 t2 t3)).
@@ -590,14 +893,13 @@ Proof.
       cbn [p_at] in H1, H2, H3.
       exists (S (max n1 (max n2 n3))). intros [|f] Hf; [lia|].
       rewrite u_expr, H1 by lia. rewrite H2 by lia. rewrite H3 by lia. reflexivity. }
-    repeat split; [exact HP|apply Kmul_from_par|apply Kadd_from_par|apply Krel_from_par]; auto; cbn; lia.
+    apply good_low; [cbn; lia|exact HP|cbn; intros; discriminate|cbn; intros; discriminate|cbn; intros; discriminate].
   - (* explicit parentheses *)
     destruct (IHt W) as (Pa & _).
-    assert (HP : Par (SParen t)).
-    { apply par_all; [|intros _; exact I]. intros rest Hs. cbn [prec] in Hs. cbn [prec p_at raw ast app].
-      rewrite <- app_assoc. cbn [app]. apply member_paren; [exact Hs|].
-      pose proof (Pa 0 ltac:(lia) (TRParen :: rest)) as H0. rewrite (tk_raw 0 t) in H0 by lia. apply H0. cbn. auto. }
-    repeat split; [exact HP|apply Kmul_from_par|apply Kadd_from_par|apply Krel_from_par]; auto; cbn; lia.
+    apply good_prim; [reflexivity|]. intros R X HR HX.
+    rewrite (tk_raw 7 (SParen t)) by (cbn; lia). cbn [raw ast app] in *. rewrite <- app_assoc. cbn [app].
+    apply (member_paren_k (raw t) (ast t) R X); [|exact HX].
+    pose proof (Pa 0 ltac:(lia) (TRParen :: R)) as H0. rewrite (tk_raw 0 t) in H0 by lia. apply H0. cbn. auto.
 Qed.
 
 (** ** The round trip: the rendering of a tree parses, with any sufficient fuel, to the tree's AST
